@@ -606,6 +606,11 @@ func goValueOf(v iface) (interface{}, bool) {
 	if v.t == nil {
 		return nil, true
 	}
+	for _, h := range goValueHooks { // topic files (intrinsics_ogrek.go: *big.Int)
+		if g, ok, handled := h(v); handled {
+			return g, ok
+		}
+	}
 	switch x := v.v.(type) {
 	case *Term:
 		if !x.IsConst() {
